@@ -1375,15 +1375,23 @@ class Controller:
         See Bluetooth spec Vol 4, Part E - 7.1.6 Disconnect Command
         '''
         handle = command.connection_handle
+        cis_link = self.central_cis_links.get(handle) or self.peripheral_cis_links.get(
+            handle
+        )
         if not (
             self.find_connection_by_handle(handle)
             or self.find_classic_sco_link_by_handle(handle)
-            or self.central_cis_links.get(handle)
-            or self.peripheral_cis_links.get(handle)
+            or (cis_link and cis_link.acl_connection)
         ):
-            # Nothing to disconnect: no Disconnection Complete event will follow
+            # Nothing to disconnect (a CIS that is configured but not established
+            # included): no Disconnection Complete event will follow
             self._send_hci_command_status(
-                hci.HCI_ErrorCode.UNKNOWN_CONNECTION_IDENTIFIER_ERROR, command.op_code
+                (
+                    hci.HCI_ErrorCode.COMMAND_DISALLOWED_ERROR
+                    if cis_link
+                    else hci.HCI_ErrorCode.UNKNOWN_CONNECTION_IDENTIFIER_ERROR
+                ),
+                command.op_code,
             )
             return None
 
